@@ -1,11 +1,21 @@
 use crate::report::Report;
 use crate::Ctx;
 
+pub mod c14;
+pub mod c15;
+pub mod c16;
 pub mod c17;
+pub mod c18;
+pub mod c19;
 
 pub fn run(ctx: &Ctx, rep: &mut Report) -> bool {
     match ctx.prop.as_str() {
+        "c14" => c14::run(ctx, rep),
+        "c15" => c15::run(ctx, rep),
+        "c16" => c16::run(ctx, rep),
         "c17" => c17::run(ctx, rep),
+        "c18" => c18::run(ctx, rep),
+        "c19" => c19::run(ctx, rep),
         _ => return false,
     }
     true
